@@ -13,6 +13,7 @@
       completely written flows only
 -/
 import MitmVerif.Lemmas.C37
+import MitmVerif.Model.C37_Addon
 import MitmVerif.Props.C36
 namespace MitmVerif.Props.C37
 open MitmVerif MitmVerif.C36 MitmVerif.C37
@@ -200,6 +201,76 @@ theorem stream_disk_complete_at_every_hook {α : Type} (env : Env α) (evs : Lis
   exact stream_file_complete_at_every_hook env evs fl hgood j
 
 -- ------------------------------------------------------------------------------------------------
+-- the Save addon's hooks inside the model
+-- ------------------------------------------------------------------------------------------------
+/-- **C37 (complete up to the last finished flow — the addon).** With the Save addon's hook handlers transcribed
+    (`addonStep`): for EVERY history of hooks, stream starts and stops, the states of all flows that were FINISHED while a
+    stream was open and the filter matched (`finishedStates`, computed from the inputs alone) occur, in hook order, among
+    the records written to the stream file — whether or not the addon ever saw the flow's start hook. -/
+theorem finished_flows_are_written : ∀ (ins : List AddonIn) (sv : Save),
+    (finishedStates sv.streaming ins).Sublist (written (addonEvents sv ins)) := by
+  intro ins
+  induction ins with
+  | nil => intro sv; simp [finishedStates, addonEvents, written]
+  | cons i t ih =>
+    intro sv
+    cases i with
+    | start =>
+      simp only [finishedStates, addonEvents, addonStep, written, Event.writes, List.nil_append]
+      exact ih { sv with streaming := true }
+    | done cands =>
+      simp only [finishedStates, addonEvents, addonStep, written]
+      by_cases hs : sv.streaming = true
+      · simp only [hs, if_true, Event.writes]
+        exact List.Sublist.trans (ih ⟨false, []⟩) (List.sublist_append_right _ _)
+      · have hs' : sv.streaming = false := by simpa using hs
+        simp only [hs', Bool.false_eq_true, if_false, Event.writes, List.nil_append]
+        have := ih sv
+        rw [hs'] at this
+        exact this
+    | hook h fid ws m state =>
+      simp only [finishedStates, addonEvents, addonStep, written]
+      by_cases hst : h.isStart = true
+      · simp only [hst, if_true, Bool.not_true, Bool.false_and, Bool.false_eq_true, if_false, Event.writes, List.nil_append]
+        by_cases hc : (sv.streaming && !sv.active.contains fid) = true
+        · simp only [hc, if_true]; exact ih { sv with active := fid :: sv.active }
+        · simp only [hc]; exact ih sv
+      · have hst' : h.isStart = false := by simpa using hst
+        simp only [hst', Bool.false_eq_true, if_false, Bool.not_false, Bool.true_and]
+        by_cases hcs : h.callsSave ws = true
+        · simp only [hcs, if_true, Bool.true_and]
+          by_cases hs : sv.streaming = true
+          · simp only [hs, if_true, Bool.true_and]
+            by_cases hm : m = true
+            · simp only [hm, if_true, Event.writes, List.singleton_append]
+              exact List.Sublist.cons_cons _ (by simpa [hs] using ih { sv with active := sv.active.filter (· != fid) })
+            · have hm' : m = false := by simpa using hm
+              simp only [hm', Bool.false_eq_true, if_false, Event.writes, List.nil_append]
+              simpa [hs] using ih { sv with active := sv.active.filter (· != fid) }
+          · have hs' : sv.streaming = false := by simpa using hs
+            simp only [hs', Bool.false_eq_true, if_false, Bool.false_and, Event.writes, List.nil_append]
+            simpa [hs'] using ih sv
+        · have hcs' : h.callsSave ws = false := by simpa using hcs
+          simp only [hcs', Bool.false_eq_true, if_false, Bool.false_and, Event.writes, List.nil_append]
+          exact ih sv
+
+/-- **C37 (crash at any byte of any addon history).** For EVERY history of hooks and stream starts / stops of the Save
+    addon, every buffering behaviour, every number of completed file operations and every surviving byte count: what is on
+    disk loads as an initial segment of the flows the addon wrote, then a clean end or FlowReadException. -/
+theorem crash_prefix_every_addon_history {α : Type} (env : Env α) (sv : Save) (ins : List AddonIn) (fl : List α)
+    (hgood : Good env 0 (written (addonEvents sv ins)) fl) (ks : List Nat) (i n : Nat) :
+    ∃ k, readAll env ((BFile.empty.runOps ((hookOps (addonEvents sv ins) ks).take i)).disk.take n) = (fl.take k, .clean) ∨
+         readAll env ((BFile.empty.runOps ((hookOps (addonEvents sv ins) ks).take i)).disk.take n) = (fl.take k, .flowRead) :=
+  crash_prefix_every_hook_sequence env (addonEvents sv ins) fl hgood ks i n
+
+/-- … and after every hook of the history what the OS holds reads back, cleanly, as all flows written so far -/
+theorem addon_disk_complete_at_every_hook {α : Type} (env : Env α) (sv : Save) (ins : List AddonIn) (fl : List α)
+    (hgood : Good env 0 (written (addonEvents sv ins)) fl) (ks : List Nat) (j : Nat) :
+    readAll env (BFile.empty.runOps (hookOps ((addonEvents sv ins).take j) ks)).disk
+      = (fl.take (written ((addonEvents sv ins).take j)).length, .clean) :=
+  stream_disk_complete_at_every_hook env (addonEvents sv ins) fl hgood ks j
+
+-- ------------------------------------------------------------------------------------------------
 -- non-vacuity: a concrete two-record file, an environment for which `Good` holds, and what cuts of it read as
 -- ------------------------------------------------------------------------------------------------
 private def st1 : Value := .dict [(.str [0x61], .int 1)]        -- {"a": 1}   ->  8:1:a;1:1#}
@@ -232,5 +303,13 @@ example : (pyWrite 4096 BFile.empty (dumps st1)).disk = [] ∧ (pyWrite 4 BFile.
   decide +kernel
 example : (BFile.empty.runOps (hookOps [.save st1, .noop, .save st2] [0, 3])).disk
     = [0x38,0x3a,0x31,0x3a,0x61,0x3b,0x31,0x3a,0x31,0x23,0x7d, 0x30,0x3a,0x7d] := by decide +kernel
+
+-- the addon model on a concrete history: flow 1 finishes without its start hook having been seen while streaming, flow 2
+-- is a websocket flow (its `response` does not write), flow 3 is still active when the stream is switched off
+example : written (addonEvents Save.init
+    [.hook .request 1 false true st2, .start, .hook .response 1 false true st1, .hook .request 2 true true st2,
+     .hook .response 2 true true st2, .hook .tcp_start 3 false true st2, .hook .websocket_end 2 true true st2,
+     .done [(3, true, st1), (1, true, st1)]]) = [st1, st2, st1] := by
+  rfl
 
 end MitmVerif.Props.C37
